@@ -651,6 +651,46 @@ def rule_s6(repo, col):
                    construct="%s: operand %d of %r" % (name, argi, fmt))
 
 
+def rule_s7(repo, col):
+    """SemiringSymbolic.plus / times short-cuts: an operand is returned alone only when the OTHER operand is the identity of the operation ('0' for plus, '1' for times), and
+    the constant '0' is returned by times only when an operand is '0' (scenario table over the path conditions)"""
+    from .. import dtable as _dt
+
+    S = repo.cls("problog.evaluator", "SemiringSymbolic")
+    m = S.module
+    ident = {}
+    for nm in ("zero", "one"):
+        f = S.methods.get(nm)
+        rets = [r.value for r in returns(f.node)] if f is not None else []
+        if len(rets) != 1 or not isinstance(rets[0], ast.Constant):
+            raise AnalysisError("SemiringSymbolic.%s: constant not found" % nm)
+        ident[nm] = repr(rets[0].value)
+    n = 0
+    for name, idn, ann in (("plus", ident["zero"], None), ("times", ident["one"], ident["zero"])):
+        f = S.methods.get(name)
+        a, b = f.params[1], f.params[2]
+        for p_ in _dt.extract(f.node, opaque_loops=True):
+            if p_.end != "return" or p_.value is None:
+                continue
+            cd = dict((s_, t_) for s_, t_, _ in p_.conds)
+            for x, other in ((a, b), (b, a)):
+                if p_.value == x:
+                    n += 1
+                    ok = cd.get("%s == %s" % (other, idn)) is True or (ann is not None and cd.get("%s == %s" % (x, ann)) is True)
+                    col.decide("S7", m, p_.stmts[-1] if p_.stmts else f.node, ok, "%s returns %s alone only when %s is the identity %s" % (name, x, other, idn),
+                               "SemiringSymbolic.%s returns its operand %s alone on a path where %s is not known to be the identity %s (conditions: %s): the result then does not denote "
+                               "%s of both operand values - e.g. times(x, x) = x instead of x*x breaks distributivity and the value of p::a, p::b, r :- a, b" % (
+                                   name, x, other, idn, ", ".join("%s=%s" % kv for kv in sorted(cd.items())) or "none", name),
+                               construct="SemiringSymbolic.%s: bare operand %s returned" % (name, x), function="SemiringSymbolic.%s" % name)
+            if ann is not None and p_.value == ann:
+                n += 1
+                ok = cd.get("%s == %s" % (a, ann)) is True or cd.get("%s == %s" % (b, ann)) is True
+                col.decide("S7", m, p_.stmts[-1] if p_.stmts else f.node, ok, "%s returns %s only when an operand is %s" % (name, ann, ann),
+                           "SemiringSymbolic.%s returns the annihilator %s on a path where no operand is known to be %s" % (name, ann, ann),
+                           construct="SemiringSymbolic.%s: annihilator returned" % name, function="SemiringSymbolic.%s" % name)
+    col.floor("S7.shortcut_returns", n, 4)
+
+
 def run(repo, col):
     col.rule("S1", "no comparison against a bound method object in semiring classes")
     col.rule("S2", "Semiring base defaults: is_one/is_zero compare with one()/zero() values; normalize(a, one()) returns a, else raises OperationNotSupported")
@@ -671,3 +711,5 @@ def run(repo, col):
     rule_s5(repo, col)
     col.rule("S6", "symbolic expression texts embed operands verbatim and are closed under operator precedence")
     rule_s6(repo, col)
+    col.rule("S7", "symbolic short-cuts: an operand is returned alone only next to the identity")
+    rule_s7(repo, col)
